@@ -272,7 +272,7 @@ GUARD_NAMES_CACHE = {}
 
 def guard_names(sc):
     g = set()
-    for t in sc["trans"] + ([sc["any_render"]] if sc.get("any_render") else []):
+    for t in sc["trans"] + ([sc["any_render"]] if sc.get("any_render") else []) + list(sc.get("also_guards", [])):
         for nm, _ in t["cond"]:
             g.add(tuple(nm))
     return g
